@@ -7,7 +7,7 @@ from . import c16 as _c16
 _c16_IDENT = [f2b(1.0), 0, 0, f2b(1.0), 0, 0]
 
 ID = "C11"
-PROPS_FILES = ["Props/C11"]
+PROPS_FILES = ["Props/C11", "Props/C11Highp"]
 ALL_FRAGMENTS = True
 TRUSTED = c08.TRUSTED
 ASSUMPTIONS = [
